@@ -347,6 +347,63 @@ func init() {
 		fmt.Printf("{\"traces\": %d, \"events\": %d}\n", *n, w.N)
 		return 0
 	})
+	register("drive-prom", "direction B: Prometheus instrumentation for Prom.tla", func(args []string) int {
+		fs := flag.NewFlagSet("drive-prom", flag.ExitOnError)
+		seed := fs.Int64("seed", 1, "seed")
+		n := fs.Int("n", 100, "number of traces")
+		out := fs.String("out", "trace.ndjson", "output NDJSON")
+		scen := fs.String("scenarios", "", "write the scenarios (JSON lines) here")
+		par := fs.Int("par", 1, "ignored: the licence switch of the plugin is global, runs are sequential")
+		*par = 1
+		_ = fs.Parse(args)
+		kernel.InstallHooks()
+		r := rand.New(rand.NewSource(*seed))
+		scs := make([]kernel.PromScenario, *n)
+		res := make([][]rec.Ev, *n)
+		for i := range scs {
+			scs[i] = kernel.GenProm(r)
+		}
+		sem := make(chan struct{}, *par)
+		var wg sync.WaitGroup
+		for i := range scs {
+			wg.Add(1)
+			sem <- struct{}{}
+			go func(i int) {
+				defer wg.Done()
+				defer func() { <-sem }()
+				lg := &rec.Log{T: i + 1}
+				done := make(chan []rec.Ev, 1)
+				go func() { done <- kernel.RunProm(lg, scs[i], *seed*100003+int64(i)) }()
+				select {
+				case res[i] = <-done:
+				case <-time.After(30 * time.Second):
+					lg.Add(rec.Ev{E: "hang"})
+					res[i] = lg.Events()
+				}
+			}(i)
+		}
+		wg.Wait()
+		w, err := rec.NewWriter(*out)
+		if err != nil {
+			fmt.Fprintln(os.Stderr, err)
+			return 2
+		}
+		var enc *json.Encoder
+		if *scen != "" {
+			sf, _ := os.Create(*scen)
+			defer sf.Close()
+			enc = json.NewEncoder(sf)
+		}
+		for i, evs := range res {
+			w.Write(evs)
+			if enc != nil {
+				_ = enc.Encode(map[string]any{"t": i + 1, "scenario": scs[i]})
+			}
+		}
+		w.Close()
+		fmt.Printf("{\"traces\": %d, \"events\": %d}\n", *n, w.N)
+		return 0
+	})
 	register("drive-ratelimit", "direction B: rate limiters for RateLimitTrace.tla", func(args []string) int {
 		fs := flag.NewFlagSet("drive-ratelimit", flag.ExitOnError)
 		seed := fs.Int64("seed", 1, "seed")
